@@ -438,7 +438,8 @@ def jobs(tier):
     for rt, ri in [((1,), (1,)), ((2,), (1, 1)), ((1, 1), (2,)), ((1, 2), (1, 1, 1)), ((1, 1, 1), (3,))] + ([((2, 2), (1, 1, 2)), ((1, 1, 2), (2, 2)), ((3, 1), (1, 1, 1, 1))] if tier == "thorough" else []):
         js.append(Job(f"errors-sym/t{'-'.join(map(str, rt))}/i{'-'.join(map(str, ri))}", job_errors_sym, dict(reps_t=list(rt), reps_i=list(ri)), "errors_objective", 900))
     import itertools
-    cfg = [(3, 3, 3, 1, 0, 0), (3, 3, 3, 1, 1, 0), (3, 3, 4, 2, 0, 0), (3, 3, 4, 2, 1, 2), (4, 3, 3, 2, 2, 0), (2, 2, 3, 1, 1, 0), (2, 2, 3, 1, 2, 2), (3, 2, 3, 2, 2, 0)]
+    # strips (one side 1): every item has size 1 in one dimension, so the search for a cuttable item falls back to the other dimension
+    cfg = [(4, 1, 3, 1, 0, 0), (1, 4, 3, 1, 0, 0), (5, 1, 3, 1, 1, 0), (3, 3, 3, 1, 0, 0), (3, 3, 3, 1, 1, 0), (3, 3, 4, 2, 0, 0), (3, 3, 4, 2, 1, 2), (4, 3, 3, 2, 2, 0), (2, 2, 3, 1, 1, 0), (2, 2, 3, 1, 2, 2), (3, 2, 3, 2, 2, 0)]
     if tier == "thorough":
         cfg += [(3, 2, 3, 2, 3, 3), (4, 3, 3, 2, 3, 6), (4, 3, 4, 2, 2, 5), (4, 2, 4, 1, 1, 4), (4, 4, 4, 2, 1, 4), (5, 3, 4, 2, 2, 5), (3, 3, 5, 2, 1, 5), (6, 4, 3, 2, 2, 3)]
     for (W, H, NI, MB, sl, nsplit) in cfg:
